@@ -2,6 +2,7 @@
 from .. import configs
 from ..algorun import replay_algo, run_algo_task
 from ..oracles import TreeIndexOracle
+from ..world import QueryAfterRound
 from . import partops
 
 ID = "C03"
@@ -9,7 +10,7 @@ LEVEL = "model_checking"
 RULE = ("Part A: every sequence of up to N operations deepen()/make_children(leaf, newlayer = leaf at deepest level) on "
         "each of the 11 partition variants, RNG answers deviating from the default in <= k places; part B: every reward "
         "sequence in R^T (E-full) and every script within k deviations of a base script (E-dev) for every tree-building "
-        "algorithm; the index/tree invariant is evaluated after every operation / round.  distinct_nontrivial = distinct "
+        "algorithm; get_last_point() may be called after any round (a choice point; <= 1-2 per run); the index/tree invariant is evaluated after every operation / round.  distinct_nontrivial = distinct "
         "final tree states (part A) or executions with at least one expansion below the deepest level or >= 2 expansions (part B).")
 ASSUMPTIONS = ["NumPy arithmetic", "the partition's public getters report its real state",
                "bounds: operation sequences up to N, reward alphabets and horizons as listed in coverage.bounds"]
@@ -38,7 +39,7 @@ def tasks(tier, seed):
         vroom = cfg["algo"] == "VROOM"
         T = 6 if tier == "quick" else 8
         ts.append({"kind": "algo", "label": "full/%s/%s" % (label, cfg["part"]), "cfg": cfg, "mode": "full", "T": T,
-                   "R": list(configs.R2), "rng_k": 1 if (vroom or len(cfg["domain"]) > 1) else None})
+                   "R": list(configs.R2), "query_k": 1 if tier == "quick" else 2})
         for base in (("peak", "zero") if tier == "quick" else ("peak", "zero", "alt", "twopeak")):
             ts.append({"kind": "algo", "label": "dev/%s/%s/%s" % (label, cfg["part"], base), "cfg": cfg, "mode": "dev",
                        "T": 8 if vroom else (40 if tier == "quick" else 100), "R": list(configs.R3), "base": base,
@@ -54,7 +55,8 @@ def tasks(tier, seed):
 
 
 def _mk():
-    return [TreeIndexOracle()]
+    # get_last_point() is part of "any algorithm run": it may be called after any round (choice point, budgeted)
+    return [QueryAfterRound(), TreeIndexOracle()]
 
 
 def _nontrivial(ctx):
